@@ -68,7 +68,16 @@ def probes_around(bounds):
 
 
 def rv(rng, lo=0, hi=6):
-    return (rng.randint(lo, hi), rng.randint(0, 5), rng.randint(0, 5))
+    z = lambda a, b: a if rng.random() < 0.2 else rng.randint(a, b)   # noqa: E731  (zeros are where the shorthands branch)
+    return (z(lo, hi), z(0, 5), z(0, 5))
+
+
+ZEROS = list(itertools.product((0, 1), (0, 1), (0, 2)))
+
+
+def forced(kinds):
+    """every shorthand over every zero / non-zero shape of a fully specified version, before the seeded cases"""
+    return [(k, a) for k in kinds for a in ZEROS]
 
 
 def check(ctx, stream, native, conv, vclass, matcher, bounds, nontrivial, extra=None):
@@ -118,10 +127,13 @@ def correspondence(ctx):
     per = 400 if ctx.thorough else 80
     # ---------------- npm
     rng = ctx.rng("c06", "npm")
-    for _ in range(per):
+    fz = forced(["caret", "tilde", "x1", "x2", "hyphen", "two", "lt"])
+    for i in range(per + len(fz)):
         a = rv(rng, 0, 4)
-        b = (a[0] + rng.randint(1, 2), rng.randint(0, 5), rng.randint(0, 5))
         kind = rng.choice(["caret", "tilde", "x1", "x2", "hyphen", "interval", "exact", "two", "ge", "lt"])
+        if i < len(fz):
+            kind, a = fz[i]
+        b = (a[0] + rng.randint(1, 2), rng.randint(0, 5), rng.randint(0, 5))
         if kind == "caret":
             e, bd = "^" + rel(*a), [a]
         elif kind == "tilde":
@@ -148,10 +160,13 @@ def correspondence(ctx):
               lambda t: spec.match(semantic_version.Version(t)), bd, kind not in ("exact", "ge", "lt"))
     # ---------------- gem
     rng = ctx.rng("c06", "gem")
-    for _ in range(per):
+    fz = forced(["tilde3", "tilde2", "excl"])
+    for i in range(per + len(fz)):
         a = rv(rng, 0, 4)
-        b = (a[0] + rng.randint(1, 2), rng.randint(0, 5), rng.randint(0, 5))
         kind = rng.choice(["tilde3", "tilde2", "interval", "exact", "ge", "excl"])
+        if i < len(fz):
+            kind, a = fz[i]
+        b = (a[0] + rng.randint(1, 2), rng.randint(0, 5), rng.randint(0, 5))
         if kind == "tilde3":
             e, bd = "~> " + rel(*a), [a]
         elif kind == "tilde2":
@@ -215,10 +230,13 @@ def correspondence(ctx):
             check(ctx, sname, e, rcls.from_native, vcls, lambda t: M.Version(t) in mr, bd, kind in ("interval", "two"))
     # ---------------- conan
     rng = ctx.rng("c06", "conan")
-    for _ in range(per):
+    fz = forced(["tilde", "caret"])
+    for i in range(per + len(fz)):
         a = rv(rng, 0, 4)
-        b = (a[0] + rng.randint(1, 2), rng.randint(0, 5), rng.randint(0, 5))
         kind = rng.choice(["tilde", "caret", "interval", "exact", "ge"])
+        if i < len(fz):
+            kind, a = fz[i]
+        b = (a[0] + rng.randint(1, 2), rng.randint(0, 5), rng.randint(0, 5))
         if kind == "tilde":
             e, bd = "~" + rel(*a), [a]
         elif kind == "caret":
@@ -233,10 +251,13 @@ def correspondence(ctx):
         check(ctx, "conan", e, VR.ConanVersionRange.from_native, V.ConanVersion, lambda t: V.ConanVersion(t) in cr, bd, kind in ("tilde", "caret", "interval"))
     # ---------------- nginx (hand-written reading of the notation)
     rng = ctx.rng("c06", "nginx")
-    for _ in range(per):
+    fz = forced(["dash", "plus", "two"])
+    for i in range(per + len(fz)):
         a = rv(rng, 0, 3)
-        b = (a[0] + rng.randint(0, 1), a[1] + rng.randint(1, 4), rng.randint(0, 5))
         kind = rng.choice(["dash", "plus", "plain", "two"])
+        if i < len(fz):
+            kind, a = fz[i]
+        b = (a[0] + rng.randint(0, 1), a[1] + rng.randint(1, 4), rng.randint(0, 5))
         def plus(x):
             return (lambda p: p >= x and (x[1] % 2 == 1 or (p[0], p[1]) == (x[0], x[1])))
         if kind == "dash":
